@@ -327,7 +327,6 @@ func runRound(rp roundPlan) {
 	parserCrossPhase(rp)
 	cronNamesPhase(rp)
 	loggerOutputKinds(rp.idx, fmt.Sprintf("r%d", rp.idx), rp.idx%2 == 1)
-	loggerSlowSinkPhase(rp)
 	for g := 0; g < rp.G; g++ {
 		per := map[int][2]int{} // k -> (conclusive, with >= 16 goroutines active)
 		for _, e := range results[g] {
@@ -377,6 +376,8 @@ func runRound(rp roundPlan) {
 			rec.Sample(map[string]any{"round": rp.String(), "pipeline": pipes[g][e.k].desc(), "alone": clip(e.ref.res, 160), "concurrent": clip(e.got.res, 160), "active_goroutines": e.active})
 		}
 	}
+	// last, because a deadlock found here ends the child: everything above is recorded by then
+	loggerSlowSinkPhase(rp)
 }
 
 func clip(s string, n int) string {
